@@ -81,7 +81,7 @@ def modelAt (fs : FullSt) (l : Line) (now : Int) : Res.Timed × String :=
   match str l "op" with
   | "issue" =>
     let rt : Option Res.RTok := if str l "rt" != "" then some { token := str l "rt", client := str l "client", subject := str l "sub", access := str l "id", issuer := str l "iss", exp := int l "rtexp" } else none
-    let t : Res.Tok := { id := str l "id", client := str l "client", subject := str l "sub", audience := list l "aud", refresh := str l "rt", issuer := str l "iss", exp := int l "exp", jwt := bool l "jwt" }
+    let t : Res.Tok := { id := str l "id", client := str l "client", subject := str l "sub", audience := list l "aud", refresh := str l "rt", issuer := str l "iss", exp := int l "exp", jwt := bool l "jwt", openid := !(has l "openid") || bool l "openid" }
     ((Res.stepT fs.atp fs.mod (.issue t rt)).1,
      if bool l "jwt" then "issued:exp=" ++ modelExpClaim now (int l "exp") (int l "skew") (str l "id") else "issued")
   | "expire" => ((Res.stepT fs.atp fs.mod (.expire (if str l "kind" == "rt" then .rt (str l "id") else .at (str l "id")))).1, "expired")
